@@ -13,7 +13,8 @@ Case syntax (one line; parsers: harness/src/engines/reopen.rs `parse_case`, lean
                                                drop / flush first drop every open session (= rollback)
          s<i> begin|commit|rollback|drop, s<i> <stmt>, db <stmt>, db batch <stmt> & <stmt> …     as engine `hist` (cfg/C04.py)
   stmt   as `hist`; values: canonical decimal | null | 'lowercase' | ^<unit><n> (unit repeated n times: rows with overflow chains)
-  DDL and VACUUM are well-formed only while no session is open (anything else is `bad-op` on both sides).
+  DDL is well-formed only while no session is open (anything else is `bad-op` on both sides); `vacuum` rolls back every open
+  transaction and ends every session (the engine leaks the session objects: they are never finished).
   output one token per op (`hist` tokens; `ddl@<object id>` for CREATE, `ddl` for DROP, `exists`, `tid<n>`); for a reopen
          `reopen{hdr=<page_size>,<min_keys>,<siblings> <table>=[<row_id>,<v>,…;…] … !<name>=notfound …}` = what the pager works
          with after the open, the full contents of every table that should exist (with the hidden row_id column), name
@@ -44,7 +45,8 @@ PROP = {
             "rolled-back transactions (every bit position of the aborted bitmap); 24 / 240 refused-commit cases (two sessions delete the "
             "same row or insert the same unique key, the loser also inserts elsewhere, the winner commits, the loser's COMMIT is "
             "refused, more committed work, close, open, reads and key probes — a transaction refused at commit must stay rolled "
-            "back across the close); thorough: > 8192 transactions with rollbacks at ids "
+            "back across the close); 24 / 240 vacuum_open_session cases (VACUUM while 1-2 sessions hold uncommitted inserts / deletes, with "
+            "and without a commit in between, the sessions never finished, close, open, reads); thorough: > 8192 transactions with rollbacks at ids "
             "~5, 600, 2600, 5600, 8150, 8200, and a sweep of rollbacks across id 8192. Non-trivial (`nt`) = at least one rolled-back "
             "transaction and one id allocation (row, object or transaction id) before some reopen, and id allocations after it; "
             "distinct = distinct case line. Tags `clean` / `kf:<feature>` split clean region and single known-finding feature.",
@@ -53,7 +55,7 @@ PROP = {
         "the model's next_row_id counter is not transactional (a rolled-back INSERT keeps its row id used): this is what the code does, because the catalog row is re-versioned with the table creator's id (update-versioning finding of C03/C04); a repaired MVCC catalog would need a non-transactional counter to keep row ids unique",
         "kept out of generation (other properties' findings): UPDATE on a table with a unique index, statements failing after their first row inside a session, reinsertion of a deleted unique key, concurrent writers of one row, duplicate probes of keys a session cannot see (C03/C04/C07); rows larger than one 40 KB WAL block are refused by the engine with an I/O error and are not generated",
         "the physical level (pages, free list, overflow chains, the unique-index trees) is not in the model: it is covered only through what SELECT / INSERT / CREATE observe after the reopen; the cache capacity in use is not observable through results (C12)",
-        "DDL and VACUUM are issued only while no session is open (transactional DDL is C15, VACUUM with open sessions C13)",
+        "DDL is issued only while no session is open (transactional DDL is C15); VACUUM with open sessions only in the vacuum_open_session family (its effect on concurrent readers is C13)",
         "`last_committed_transaction` needs no persistence for a clean reopen: recovery commits a transaction with a fresh, larger id before anything is read (a mutation that does not persist it is equivalent)",
     ],
     "partial": "",
